@@ -7,6 +7,7 @@ import (
 	"os"
 	"path/filepath"
 	"strings"
+	"sync"
 	"time"
 
 	"verif/harness/internal/core"
@@ -38,12 +39,15 @@ func C04(c *core.Ctx) {
 	}
 	n, invalid := 0, 0
 	attrs := map[string]int{}
-	_, err = core.ReadDump(dump+".dump", func(vars map[string]interface{}) error {
+	var mu sync.Mutex
+	_, err = core.ReadDumpParallel(dump+".dump", 8, func(idx int, vars map[string]interface{}) error {
 		cs := asMap(vars["cs"])
 		if _, seed := cs["seed"]; seed {
 			return nil
 		}
+		mu.Lock()
 		n++
+		mu.Unlock()
 		attr := asStr(cs["attr"])
 		base, target := yamlOf(cs["base"]), yamlOf(cs["target"])
 		var overs []string
@@ -60,14 +64,18 @@ func C04(c *core.Ctx) {
 		pc, ec := safeLoad(wd, nil, []namedDoc{{Name: wd + "/target.yaml", Content: target}})
 		nontrivial := target != base
 		c.Eval(attr+"|"+base+"|"+strings.Join(overs, "|"), nontrivial)
+		mu.Lock()
 		attrs[attr]++
-		if n%97 == 1 {
+		mu.Unlock()
+		if idx%97 == 1 {
 			c.Sample(map[string]interface{}{"attribute": attr, "base": base, "overrides": overs, "target_by_spec": target})
 		}
 		rep := map[string]interface{}{"attribute": attr, "base": base, "overrides": overs, "target": target}
 		switch {
 		case ea != nil && eb != nil && ec != nil:
+			mu.Lock()
 			invalid++ // the generated case is not a valid model in any form
+			mu.Unlock()
 			return nil
 		case ec != nil:
 			c.Report(core.Finding{Sig: "target-invalid:" + attr, Detail: fmt.Sprintf("%s: files load but the specification's target does not: %v", attr, ec), Replay: rep})
